@@ -940,15 +940,46 @@ def tie_problem(rng, manhattan=False):
                             D[a, b] = w if (a == mem[0] or b == mem[0]) else 2 * w
                         else:
                             D[a, b] = w
+    gadget = None
+    if not manhattan and rng.random() < 0.5:
+        # "tie with a label swap": clusters A = {a, p, h} (medoid a) and B = {b, f} (medoid b).  Proposing p for A
+        # moves h to B (1 -> 2) and f to A (2 -> 1), a and p trade 0 <-> 1: exactly the same cost, different
+        # labels.  A leaked tie-rejected candidate changes who is a member of A / B in the next step.
+        a_, p_, h_, b_, f_ = range(n, n + 5)
+        gA, gB = len(groups), len(groups) + 1
+        groups.append(('gadgetA', [a_, p_, h_], 1))
+        groups.append(('gadgetB', [b_, f_], 1))
+        n2 = n + 5
+        D2 = np.zeros((n2, n2), dtype=int)
+        D2[:n, :n] = D
+        for gi, g in enumerate(groups):
+            for gj, g2 in enumerate(groups):
+                if gi != gj and (gi >= gA or gj >= gA):
+                    for x in g[1]:
+                        for y in g2[1]:
+                            D2[x, y] = 10 + (gi + gj) % 3
+        for (x, y, v) in [(a_, p_, 1), (a_, h_, 1), (p_, h_, 3), (h_, b_, 2), (f_, b_, 2), (f_, p_, 1), (f_, a_, 3),
+                          (a_, b_, 5), (p_, b_, 5), (h_, f_, 4)]:
+            D2[x, y] = D2[y, x] = v
+        D, n = D2, n2
+        gadget = (a_, b_)
     # medoids: any member; for stars mostly a leaf (so that the hub is a strictly better proposal)
     meds = []
     for g in groups:
         mem = g[1]
-        meds.append(int(mem[-1] if (g[0] in ('star', 'ell') and rng.random() < 0.7) else rng.choice(mem)))
+        if g[0].startswith('gadget'):
+            meds.append(int(mem[0]))
+        else:
+            meds.append(int(mem[-1] if (g[0] in ('star', 'ell') and rng.random() < 0.7) else rng.choice(mem)))
+    m = len(groups)
     perm = [int(i) for i in rng.permutation(n)]          # new frame i = old frame perm[i]
     inv = {o: i for i, o in enumerate(perm)}
     D = D[np.ix_(perm, perm)]
     order = [int(i) for i in rng.permutation(m)]
+    if gadget is not None:                       # cluster A is updated before cluster B
+        ia, ib = order.index(m - 2), order.index(m - 1)
+        if ia > ib:
+            order[ia], order[ib] = order[ib], order[ia]
     inds = [inv[meds[g]] for g in order]
     label_of = {}
     for lbl, g in enumerate(order):
@@ -960,20 +991,23 @@ def tie_problem(rng, manhattan=False):
     if manhattan:
         prob = {'metric': 'manhattan', 'X': [pts[o] for o in perm],
                 'dtype': str(rng.choice(['int16', 'int32', 'int64', 'float64'])), 'style': 'tie-pairs'}
+        gadget = None
     else:
         prob = {'metric': 'table', 'D': D.tolist(), 'dtype': 'int64', 'style': 'tie-cliques'}
+    prob['gadget'] = gadget is not None
     return prob, {'inds': inds, 'assign': assign, 'dist': dist}, members
 
 
 def gen_tie_case(rng):
     prob, st, members = tie_problem(rng, manhattan=rng.random() < 0.3)
     c = dict(prob)
+    has_gadget = c.pop('gadget', False)
     c['family'] = 'exact-ties'
     c['state'] = st
     c['seed'] = int(rng.integers(0, 2 ** 31))
     k = len(st['inds'])
     u = rng.random()
-    if u < 0.6:
+    if u < (0.25 if has_gadget else 0.6):
         # explicit proposals: another member of the own cluster (an exact tie unless it is a star's hub)
         props = []
         for lbl in range(k):
@@ -993,7 +1027,7 @@ def gen_tie_case(rng):
     elif v < 0.75:
         c['kind'] = 'kmedoids'
         c['warm'] = str(rng.choice(['all', 'inds', 'ad']))
-        c['n_iters'] = int(rng.integers(1, 5))
+        c['n_iters'] = int(rng.integers(2 if has_gadget else 1, 5))
     else:
         c['kind'] = 'kmedoids_feedback'
         c['warm'] = 'all'
@@ -1109,7 +1143,8 @@ def audit_families(ctx, kinds=None):
     # md.Trajectory + 'rmsd' is NOT generated: mdtraj's rmsd centers the caller's trajectory in place, so
     # "inputs are not modified" cannot hold for it; C01 quantifies over euclidean / manhattan / user callables.
     for _ in range(ctx.n(40, 500)):                       # class 3: scale
-        c = gen_case(rng, scale_exp=int(rng.choice([30, -30, -10, 20])))
+        c = gen_case(rng, scale_exp=int(rng.choice([30, -30, -40, -40, 20])),
+                     kind=None if rng.random() < 0.4 else str(rng.choice(['kmedoids', 'pam_update', 'hybrid'])))
         c['family'] = 'scaled'
         cases.append(c)
     for _ in range(ctx.n(60, 1500)):                      # class 3: exact ties
@@ -1451,6 +1486,8 @@ def compare_with_model(ctx, P, case, out, m, area='C01'):
     for st in trace:
         if st['old'] == st['new'] and not st.get('same'):
             ctx.tag('pam-exact-tie-other-candidate')
+            if st['dn'] >= 2:
+                ctx.tag('pam-exact-tie-with-label-swap')
             if any(s2['acc'] for s2 in trace[trace.index(st) + 1:]):
                 ctx.tag('pam-accept-after-exact-tie')
         for b in ('dn', 'other', 'this'):
@@ -1467,6 +1504,14 @@ def compare_with_model(ctx, P, case, out, m, area='C01'):
         nacc = sum(1 for st in trace if st['acc'])
         if out['acc'] + out['rej'] == len(trace) and nacc != out['acc']:
             msg = 'accepted proposals %d vs model %d' % (out['acc'], nacc)
+    if msg is None and out.get('log') and len(trace) == len(out['log']):
+        # every recorded random draw must be the frame the model proposes at that step, i.e. a member of the
+        # cluster being updated at that moment (the offered list is np.where(assignments == cid))
+        for i, (stp, (offered, taken)) in enumerate(zip(trace, out['log'])):
+            if stp['p'] != taken:
+                msg = 'random proposal %d (center %d): the code drew frame %d from %s, the members of that ' \
+                      'cluster give frame %d' % (i, stp['cid'], taken, offered, stp['p'])
+                break
     if msg is None and 'log' in out and mo.get('used') is not None and mo['used'] != len(out['log']):
         msg = 'random choices consumed %d vs model %d' % (len(out['log']), mo['used'])
     if msg is not None:
@@ -1555,7 +1600,7 @@ def _run(ctx):
             'pam-all-three-branches', 'model-agrees', 'sweep-by-sweep-agrees', 'assign-argmin-branch',
             'large-n', 'center-index>=256', 'k>255', 'n>65536', 'family=containers',
             'family=scaled', 'family=exact-ties', 'family=degenerate', 'family=reuse', 'family=config',
-            'pam-exact-tie-other-candidate', 'pam-accept-after-exact-tie', 'same-objects-reused',
+            'pam-exact-tie-other-candidate', 'pam-exact-tie-with-label-swap', 'pam-accept-after-exact-tie', 'same-objects-reused',
             'fed-back-rounds-agree', 'proposals=current-medoids', 'singleton-cluster', 'inds_form=array32',
             'props_form=tuple', 'assign_dtype=int32', 'dist_dtype=float32', 'x_layout=F', 'x_layout=strided',
             'n_iters=0', 'n_iters=5+']
